@@ -19,7 +19,8 @@ EXTENDS Integers, Sequences, FiniteSets
 
 CONSTANTS N,          \* iterations considered
           MaxK,       \* limits are in 1..MaxK
-          MaxCalls    \* copy a makes 1..MaxCalls calls
+          MaxCalls,   \* copy a makes 1..MaxCalls calls
+          Bug         \* "none" | "no_break" (the loop tests the measure but does not stop): anti-vacuity
 
 VARIABLES Below, a, b
 vars == <<Below, a, b>>
@@ -44,7 +45,7 @@ DoSweep(r)   == [r EXCEPT !.iter = r.iter + 1, !.vtag = r.vtag + 1, !.rem = r.re
                           !.sweeps = r.sweeps + 1,
                           !.below = (r.iter + 1) \in Below, !.pc = "swept"]
 CanTest(r)   == r.pc = "swept"
-DoTest(r)    == IF r.below THEN [r EXCEPT !.conv = TRUE, !.pc = "after"]
+DoTest(r)    == IF r.below /\ Bug # "no_break" THEN [r EXCEPT !.conv = TRUE, !.pc = "after"]
                 ELSE [r EXCEPT !.pc = "top"]
 CanExit(r)   == r.pc = "top" /\ r.rem = 0
 DoExit(r)    == [r EXCEPT !.pc = "after"]
